@@ -156,12 +156,20 @@ func init() {
 			n := counts[t.Choose(simrt.StGen, len(counts), 0)]
 			dir := []string{"", "data/"}[t.Choose(simrt.StGen, 2, 0)]
 			src := srcNode(w, "src0", n, dir)
+			if t.Choose(simrt.StGen, 2, 0) == 1 {
+				// arrival order different from the lexicographic order of the paths
+				f := w.Nodes[src].Files
+				for i, j := 0, len(f)-1; i < j; i, j = i+1, j-1 {
+					f[i], f[j] = f[j], f[i]
+				}
+			}
 			up := Edge{src, "out"}
 			if t.Choose(simrt.StGen, 2, 0) == 1 {
 				up = Edge{oneToOne(w, "pre", up), "o0"}
 			}
 			sub := addNode(w, Node{Name: "sub", Kind: KStreamToSub, Ins: []InSpec{{Name: "in", From: []Edge{up}}}, Outs: []OutSpec{{Name: "substream"}}})
-			sep := []string{" ", ",", ":", "+"}[t.Choose(simrt.StGen, 4, 0)]
+			// separators incl. multi-character ones that share characters with the end of the member paths
+			sep := []string{" ", ",", ":", "+", ".o0,", "txt+"}[t.Choose(simrt.StGen, 6, 0)]
 			j := addNode(w, Node{Name: "join", Kind: KProc, Cores: 1,
 				Ins:  []InSpec{{Name: "x", From: []Edge{{sub, "substream"}}, Join: true, Sep: sep}},
 				Outs: []OutSpec{{Name: "o0", Pattern: "joined.join.o0"}}})
